@@ -71,9 +71,10 @@ Qed.
 Lemma frag0_rejection_free : rejection_free fb = true.
 Proof.
   destruct frag0_parts as (H1 & Hc & _). unfold no_rejecting_constraints in Hc. unfold rejection_free.
-  apply andb_true_intro. split.
+  apply andb_true_intro. split; [apply andb_true_intro; split|].
   - rewrite forallb_forall in *. intros k Hk. specialize (Hc k Hk). destruct k; try discriminate; reflexivity.
   - unfold single_plain_crossing in H1. destruct (fl_crossings fb) as [|c [|? ?]]; try discriminate. reflexivity.
+  - rewrite (frag1_no_derived fb frag0_frag1). reflexivity.
 Qed.
 
 Local Notation HF1 := frag0_frag1.
@@ -100,10 +101,10 @@ Proof. exact (f1_accept_complete fb HF1 s). Qed.
 
 Theorem f0_count_exact :
   fl_errors_fail fb = false ->
-  make_enumerator fb = ROk (f0_enum fb [] []) /\
+  make_enumerator fb = ROk (f0_enum_plain fb) /\
   NoDup (map (cand_tseq fb) (keys_of fb)) /\
   (forall s, In s (map (cand_tseq fb) (keys_of fb)) <-> valid_b (code_sem fb) s = true) /\
-  Z.of_nat (length (map (cand_tseq fb) (keys_of fb))) = possible_keys fb (f0_enum fb [] []).
+  Z.of_nat (length (map (cand_tseq fb) (keys_of fb))) = possible_keys fb (f0_enum_plain fb).
 Proof. intros He. exact (f1_count_exact fb HF1 He frag0_rejection_free). Qed.
 
 End F0T.
